@@ -40,6 +40,7 @@ class World:
         self.systems = {}                   # id -> system object as returned by AddUnitSystem (held by the caller)
         self.log = []
         self.objs = {}                      # id -> tracked object, held (only) by the caller
+        self.removed = {}                   # id -> system object the caller still holds after it was removed from the manager
         self.m.on_current.Register(self._on_current)
         self.m.on_unit_changed.Register(self._on_unit)
 
@@ -64,15 +65,21 @@ class World:
                 else:
                     s = m.AddUnitSystem(a["id"], "caption " + a["id"], self.lits[a["l"]])
                 self.systems[a["id"]] = s
+                self.removed.pop(a["id"], None)
             elif op == "RemoveUnitSystem":
                 m.RemoveUnitSystem(a["id"])
-                self.systems.pop(a["id"], None)
+                if a["id"] in self.systems:
+                    self.removed[a["id"]] = self.systems.pop(a["id"])
             elif op == "SetCurrent":
                 m.SetCurrent(None if a["id"] == NONE else m.GetUnitSystemById(a["id"]))
             elif op == "SetDefaultUnit":
                 m.GetUnitSystemById(a["id"]).SetDefaultUnit(a["c"], a["u"])
             elif op == "RemoveCategory":
                 m.GetUnitSystemById(a["id"]).RemoveCategory(a["c"])
+            elif op == "SetDefaultUnitRemoved":
+                if a["id"] in self.removed:
+                    self.removed[a["id"]].SetDefaultUnit(a["c"], a["u"])
+                    self.removed[a["id"]].RemoveCategory(a["c"])
             elif op == "Register":
                 if a["o"] not in self.objs:
                     self.objs[a["o"]] = Tracked(*OBJPOOL[a["o"]])
